@@ -617,7 +617,26 @@ class CacheEngineBase(Engine):
             w2.run_alone(lp, prog)
         finally:
             SEAM.restore(saved)
-        # real
+        # real: it lives on the real clock, so every mtime of its copy (and the source mtime recorded in each .pyc
+        # header) is shifted by a whole number of seconds such that ages relative to "now" are what they are in
+        # the simulation (an implementation that prunes by age must prune the same files in both)
+        import time as _t
+        delta = int(_t.time()) - int(clock + 5.0)
+        for dpath, _, fns in os.walk(realdir):
+            for fn in fns:
+                fp = os.path.join(dpath, fn)
+                try:
+                    st = REAL["stat"](fp)
+                    if fn.endswith(".pyc"):
+                        with REAL_IO_OPEN(fp, "rb") as f:
+                            b = f.read()
+                        if len(b) >= 16 and b[4:8] == b"\x00\x00\x00\x00":
+                            m = (int.from_bytes(b[8:12], "little") + delta) & 0xFFFFFFFF
+                            with REAL_IO_OPEN(fp, "wb") as f:
+                                f.write(b[:8] + m.to_bytes(4, "little") + b[12:])
+                    REAL["utime"](fp, (st.st_mtime + delta, st.st_mtime + delta))
+                except OSError:
+                    pass
         env = dict(os.environ, PYTHONHASHSEED="0")
         env.pop("PYTHONDONTWRITEBYTECODE", None)
         r = subprocess.run([sys.executable, os.path.join(os.path.dirname(os.path.dirname(os.path.abspath(__file__))), "tools", "realproc.py"),
